@@ -1,0 +1,12 @@
+//go:build verif
+
+package executor
+
+// Contracts for /verif (gvc). Comment-only file; see /verif/DESIGN.md §5 C12, C08.
+
+//@ prop C12
+
+// Each measurement of a multi-measurement remote query ships ITS OWN options (sources, condition, columns).
+//@ func (*RemoteQuery).MarshalMstInfos
+//@   call .MarshalBinary on c.MstInfos[i].Opt
+//@     requires 0 <= i
